@@ -132,6 +132,21 @@ def select_matrix(steps=1, engine=0, bases=("leaf", "sel", "chain", "join")):
                     yield (f"{dname}/projected-join/{len(pl)}x{len(pr)}", (UNIVERSE, leaves, ("join", lhs, rhs, None)))
                     yield (f"{dname}/projected-join/{len(pl)}x{len(pr)}/swapped", (UNIVERSE, leaves, ("join", rhs, lhs, None)))
         if steps == 1:
+            # deduplicate, hide a column in which otherwise equal rows differ, calculate a new column under the hidden
+            # column's tag, deduplicate again: the rows are not unique any more although the first deduplication's columns
+            # are all "still there"
+            for hide in ((A,), (A, B), (B,)):
+                for expr in (("neg", R(hide[0])), ("add", R(hide[0]), ("lit", 1)), ("mul", R(hide[-1]), ("lit", 0))):
+                    for mid in (None, ("sel", ("ge", R(hide[0]), ("lit", 0))), ("sort", ((R(hide[0]), True),)), ("slice", 0, 5)):
+                        p = ("proj", ("dedup", ("leaf", 0)), hide)
+                        if mid is not None:
+                            p = _apply(mid, p)
+                        for hidden in (t for t in (A, B, C) if t not in hide):
+                            p = ("calc", p, hidden, expr)  # every hidden tag comes back as a calculated column
+                        p = ("dedup", p)
+                        yield (f"{dname}/dedup-hide-recalc-dedup/{mid[0] if mid else 'plain'}", (UNIVERSE, leaves, p))
+                        yield (f"{dname}/dedup-hide-recalc-dedup/{mid[0] if mid else 'plain'}/sliced", (UNIVERSE, leaves, ("slice", p, 0, 3)))
+        if steps == 1:
             # a calculated column as the only carrier of a column the projection hid: calculation, projection hiding its
             # input, deduplication, projection dropping the calculated column (the last projection must not be folded
             # into the DISTINCT)
